@@ -176,6 +176,15 @@ OWNER_POLICY = {
         "atomic": {},
         "member_calls": {"ready": "gain_on_true", "sync": "gain", "wait": "gain", "force_sync": "gain", "force_wait": "gain"},
     },
+    # helper awaiter of cocls::discard(): it publishes ITSELF in its constructor (subscribe(this)) and deletes itself when
+    # resumed by the resolver; after the publishing call nothing of the object may be touched by the constructing thread
+    "discard::Awt": {
+        "fields": "*",                      # every data member of the class + the awaiter node fields
+        "include_ctor": True,
+        "entry": {"Awt": "before-publish (constructing thread)", "fin": "after-acquire (resumed by the resolver)"},
+        "atomic": {},
+        "publish_calls": ["subscribe", "await_suspend"],          # with `this` as argument: drop on true (accepted)
+    },
     "reusable_storage_mtsafe": {
         "fields": ["_ptr", "_capacity"],
         "entry": {},
@@ -322,6 +331,7 @@ class Walker:
         self.fences = {}       # (class, fn) -> list of (order, in_branch)
         self.seen_fn = set()
         self.funcs = {}        # (class chain, fn) -> list of function decl nodes with body
+        self.records = {}      # names of function-local classes -> record nodes
         for o in objs:
             self.index(o, [])
         for o in objs:
@@ -355,6 +365,22 @@ class Walker:
                 for x in n.get("inner", []):
                     if x.get("kind") not in ("ParmVarDecl", "FullComment"):
                         self.walk_stmt(x, c, fn, False)
+            # classes defined locally in the function body (e.g. the helper awaiter of cocls::discard): "<function>::<class>"
+            if body and ("local", n["id"]) not in self.seen_fn:
+                self.seen_fn.add(("local", n["id"]))
+                fnm = strip_tpl(n.get("name", ""))
+                stack = list(body)
+                while stack:
+                    x = stack.pop()
+                    if not isinstance(x, dict): continue
+                    if x.get("kind") == "CXXRecordDecl" and x.get("name") and x.get("inner"):
+                        lname = (c + "::" if c else "") + fnm + "::" + x["name"]
+                        self.ctxname[x["id"]] = lname
+                        self.records.setdefault(lname, []).append(x)
+                        self.walk_decl(x, lname)
+                        continue
+                    if x.get("kind") == "LambdaExpr": continue
+                    stack.extend(x.get("inner", []))
             return
         for ch in n.get("inner", []):
             if isinstance(ch, dict):
@@ -534,6 +560,11 @@ class MethodBuilder:
                         eff = self.policy["member_calls"][op]
                         if eff == "gain": self.emit(("Gain",))
                         elif self.cond_eff is not None: self.cond_eff.append((eff,) + self.cond_pol)
+                        return
+                    if op in self.policy.get("publish_calls", []) and any(unwrap(a).get("kind") == "CXXThisExpr" for a in args):
+                        self.expr(raw)
+                        if self.cond_eff is not None: self.cond_eff.append(("drop_on_true",) + self.cond_pol)
+                        else: self.emit(("Release",))
                         return
                     if op in self.policy.get("drop_calls", {}).get(self.fn, []) and base.get("kind") != "CXXThisExpr":
                         for a in args: self.expr(a)
@@ -1103,7 +1134,12 @@ def extract_owner_classes(w):
     for cls, pol in OWNER_POLICY.items():
         names = sorted(set(fn for (c, fn) in w.funcs if c == cls))
         short = cls.split("::")[-1]
-        names = [fn for fn in names if fn != short and not fn.startswith("~") and fn not in ("operator=",)]
+        names = [fn for fn in names if (fn != short or pol.get("include_ctor")) and not fn.startswith("~") and fn not in ("operator=",)]
+        if pol.get("fields") == "*":
+            fl = ["_next", "_handle_addr", "_resume_fn"]
+            for r in w.records.get(cls, []):
+                fl += [c["name"] for c in r.get("inner", []) if c.get("kind") == "FieldDecl" and c.get("name") and c["name"] not in fl]
+            pol = dict(pol, fields=fl)
         if not names:
             problems.append("owner discipline: class %s not found" % cls); continue
         methods = {}
